@@ -84,6 +84,19 @@ def try_concrete_replay(key, ob, res):
 def rerun_replay(path):
     rec = json.load(open(path))
     req = rec.get("replay_request")
+    if rec.get("kind") == "bounded-case":
+        # a failing case observed on the real model by a bounded stand-in: print how to reproduce it (the repro is Python source or a
+        # configuration for the named e3 module; it is run with /venv/bin/python against the current /repo)
+        print("bounded case %s of %s\n clause: %s\n detail: %s\n module: %s" % (rec.get("signature"), rec.get("property"), rec.get("clause"), str(rec.get("detail"))[:1500], rec.get("module")))
+        repro = str(rec.get("repro") or "")
+        print(" repro: %s" % repro[:3000])
+        if repro.startswith("import ") or repro.startswith("from "):
+            env = dict(os.environ, PYTHONWARNINGS="ignore")
+            if REPO != "/repo":
+                env["PYTHONPATH"] = REPO
+            p = subprocess.run([VENV_PY, "-c", repro], capture_output=True, text=True, timeout=1800, cwd=VERIF, env=env)
+            print((p.stdout + p.stderr)[-3000:])
+        return 1
     if not req:
         print("replay file carries no concrete input (no-failing-input-found); obligation: %s" % rec.get("obligation"))
         print(json.dumps({k: rec[k] for k in ("obligation", "clause", "solver_verdict", "solver_attempts", "model") if k in rec}, indent=1)[:4000])
